@@ -268,6 +268,13 @@ def check_property(pid, tier, seed, replay_only=None):
             if not ur2.gen_error and not ur2.res.fatal:
                 runs[u] = ur2
 
+    cur_loop_sig, cur_callees = {}, {}
+    for u in units:
+        ur = runs.get(u)
+        if ur is not None and ur.unit is not None:
+            for em in ur.unit.items:
+                cur_loop_sig[(u, em.name)] = em.loop_sig
+                cur_callees[(u, em.name)] = em.callees
     functions, obligations, discharged = [], 0, 0
     failures, trusted, rules_applied, samples = [], [], {}, []
     solver_ms, verus_version, checker_cmds = 0, '', []
@@ -458,6 +465,25 @@ def check_property(pid, tier, seed, replay_only=None):
         if k:
             kf_printed.append((k[0], f))
             continue
+        # annotation-fit test: loop invariants and hints are proof artifacts written for the loops of the baselined function.
+        # If the function's loop headers differ from the baseline's (re-indexed range, different iterable, loop added or
+        # removed), a failing obligation inside it only says that the annotations no longer fit - undecided, not a violation.
+        bsig = bu.get('functions', {}).get(f['function'], {}).get('loop_sig')
+        csig = cur_loop_sig.get((f['unit'], f['function']))
+        if in_base and not f.get('kani') and bsig is not None and csig is not None and bsig != csig:
+            msg = ('%s: the loop structure of the function changed (baseline %r, now %r); its loop annotations can no longer be '
+                   'trusted to fit, so its failed obligations decide nothing' % (f['function'], bsig, csig))
+            if msg not in undecided:
+                undecided.append(msg)
+            continue
+        bcal = bu.get('functions', {}).get(f['function'], {}).get('callees')
+        ccal = cur_callees.get((f['unit'], f['function']))
+        if in_base and not f.get('kani') and bcal is not None and ccal is not None and set(ccal) - set(bcal):
+            msg = ('%s: the function now calls %s, which its baselined version did not; the contracts assumed for callees were chosen for the '
+                   'baselined calls, so its failed obligations decide nothing' % (f['function'], ', '.join(sorted(set(ccal) - set(bcal)))[:200]))
+            if msg not in undecided:
+                undecided.append(msg)
+            continue
         if in_base:
             violations.append(f)
         else:
@@ -582,7 +608,7 @@ def rebaseline():
         fns = {}
         for em in ur.unit.items:
             if em.mode == 'verify' and em.name not in failed:
-                fns[em.name] = {'loops': em.n_loops, 'clauses': len(em.clauses) + 1}
+                fns[em.name] = {'loops': em.n_loops, 'clauses': len(em.clauses) + 1, 'loop_sig': em.loop_sig, 'callees': em.callees, 'sha': em.sha}
         lemmas = sorted(set(k.split('::')[-1] for k, v in ur.res.functions.items() if v['success'] and k.split('::')[-1] not in failed))
         tp = run_unit(u, specs, outdir, 'tail')
         tail = sorted(probe_hits(tp)) if (tp.res is not None and not tp.gen_error and not tp.res.fatal) else []
